@@ -89,3 +89,25 @@ package mutation
 //@   ensures [C16] submitter-labels-win-otherwise: rjcName != "" && len(result.Errors) == 0 ==>
 //@        (forall k string :: k != jobconfig.LabelKeyJobConfigUID && old(k in rj.Labels) ==> (k in rj.Labels) && rj.Labels[k] == old(rj.Labels[k]))
 //@   ensures [C13,C16] finalizer-carried: rjcName != "" && len(result.Errors) == 0 ==> meta.contains(rj.Finalizers, executiongroup.DeleteDependentsFinalizer)
+
+// ---- option values at admission (C18): evaluated options are merged under the explicitly given substitutions -------------------
+//@ import options "github.com/furiko-io/furiko/pkg/core/options"
+//@ extern func github.com/furiko-io/furiko/pkg/utils/jsonyaml.UnmarshalString
+//@   params data, v
+//@   modifies maps(string, any)
+//@ extern func github.com/furiko-io/furiko/pkg/core/options.HashOptionSpec
+//@   params spec
+
+//@ func Mutator.evaluateOptionValues
+//@   tags C18
+//@   requires rj != nil
+//@   assumes decoded-object-maps-are-distinct: rj.Spec.Substitutions == nil || rj.Annotations != rj.Spec.Substitutions
+//@   modifies rj.Spec.OptionValues, rj.Annotations, rj.Spec.Substitutions, maps(string, string), maps(string, any)
+//@   ensures result != nil
+//@   ensures [C18] no-jobconfig-no-change: rjc == nil ==> rj.Spec.Substitutions == old(rj.Spec.Substitutions) && len(result.Errors) == 0
+//@   ensures [C18] explicit-substitutions-win: rjc != nil && len(result.Errors) == 0 ==>
+//@        (forall k string :: old(k in rj.Spec.Substitutions) ==> (k in rj.Spec.Substitutions) && rj.Spec.Substitutions[k] == old(rj.Spec.Substitutions[k]))
+//@   ensures [C18] every-option-has-a-value: rjc != nil && len(result.Errors) == 0 && rjc.Spec.Option != nil ==>
+//@        (forall i int :: {rjc.Spec.Option.Options[i]} 0 <= i && i < len(rjc.Spec.Option.Options) ==> (options.optKey(rjc.Spec.Option.Options[i].Name) in rj.Spec.Substitutions))
+//@   ensures [C18] nothing-but-options-and-explicit: rjc != nil && len(result.Errors) == 0 ==>
+//@        (forall k string :: (k in rj.Spec.Substitutions) ==> old(k in rj.Spec.Substitutions) || (rjc.Spec.Option != nil && (exists i int :: 0 <= i && i < len(rjc.Spec.Option.Options) && k == options.optKey(rjc.Spec.Option.Options[i].Name))))
